@@ -1894,6 +1894,23 @@ async fn run_case(seed: u64, idx: u64, focus: &str, thorough: bool, fixes: &str)
         r.w.hist.add("scripted:session_expiry");
         moves.push(format!("scripted: sessions, idle for {} ms (session timeout {} ms), then traffic", idle * GRID_MS, ttl_ms));
     }
+    // scripted opening: a challenge must not live longer than its timeout - a second undecryptable
+    // packet of the same peer (and the application's answer to the second who-are-you query) arrives
+    // while the challenge is outstanding; the handshake for the FIRST challenge then arrives after its
+    // timeout has run out
+    if focus == "c03" && rng.chance(1, 5) {
+        let p = rng.below(npeers as u64) as usize;
+        r.net_random(&mut rng, p).await;
+        r.app_answer_wru(0, 1 + rng.below(3) as u8).await;
+        let first = rng.range(60, 180);
+        r.advance(first).await;
+        r.net_random(&mut rng, p).await;
+        r.app_answer_wru(0, 1 + rng.below(3) as u8).await;
+        r.advance(TIMEOUT_MS / GRID_MS + 4 - first).await;
+        r.net_handshake(&mut rng, 3, HsVariant::Honest).await;
+        r.w.hist.add("scripted:second_packet_while_challenged_then_late_handshake");
+        moves.push(format!("scripted: packet of peer {}, challenge, second packet after {} ms, handshake after the first challenge expired", p, first * GRID_MS));
+    }
     // scripted opening: a burst of outcomes - sixty requests to a peer that never answers are queued
     // behind the first one and all fail in the step in which it gives up (the channel to the
     // application holds 50 reports: every one of them must still arrive)
